@@ -1,10 +1,10 @@
 SPECIFICATION Spec
 INVARIANT KnownEvent
-INVARIANT Step_Conv
 INVARIANT Cl_RoundTrip
 INVARIANT Cl_FixesEnds
 INVARIANT Cl_SumOne
 INVARIANT Cl_RatioLaw
 INVARIANT Cl_Monotone
 INVARIANT Cl_RejectsOutside
+INVARIANT Step_Conv
 CHECK_DEADLOCK FALSE
